@@ -39,7 +39,7 @@ func scriptCorpus(c *Ctx, nRandom int, swEvery, exEvery int) (progs []*Prog, src
 		return nil, nil, false
 	}
 	for i, ln := range files["switches.ndjson"] {
-		if (i+int(c.Seed))%swEvery != 0 {
+		if !sampled(i, c.Seed, swEvery) {
 			continue
 		}
 		var f swFam
@@ -55,7 +55,7 @@ func scriptCorpus(c *Ctx, nRandom int, swEvery, exEvery int) (progs []*Prog, src
 		return nil, nil, false
 	}
 	for i, s := range shapes {
-		if (i+int(c.Seed))%exEvery != 0 {
+		if !sampled(i, c.Seed, exEvery) {
 			continue
 		}
 		idx := 0
